@@ -22,7 +22,7 @@ func (w *WeakestByProbabilityCriteriaOrderingResolver) Spec_OrderCriteria(
 	props *model.BiasProps,
 	listener *model.BiasListener,
 ) *model.Criteria {
-	parsedProps := parseRandomOrderingProps(props)
+	parsedProps := Spec_parseRandomOrderingProps(props)
 	generator := w.Generator(parsedProps.RandomSeed)
 	sorted := *(*listener).RankCriteriaAscending(params)
 	totalLen := len(sorted)
